@@ -424,6 +424,8 @@ class Histogram1D(ObjectWithBinning, HistogramBase):
         weights_array = extract_weights(weights, array_mask=array_mask)
         if weights_array is not None:
             self._coerce_dtype(weights_array.dtype)
+        else:
+            self._coerce_dtype(int)  # Counting, as in fill()
         (frequencies, errors2, underflow, overflow, stats) = calculate_1d_frequencies(
             values_array,
             self._binning,
